@@ -258,6 +258,9 @@ def run(ctx, chk):
     if not rom_store_sites:
         chk.ok('C10.4', 'syntactic')
     # ---- rule 5: fetch view
+    from .. import headercfg as _hc
+    from .c03 import syms_of
+    FIXED = _hc.fixed_buffer_sizes(facts)
     for f in fetches:
         if f['status'] != 'ok':
             continue
@@ -282,6 +285,25 @@ def run(ctx, chk):
                     okk = True
                 else:
                     why = 'fetch reads %s[%s], data read uses %s[%s]' % (f['buffer'], fmt(off), p['buffer'], fmt(p['index']))
+            if okk:
+                # extent: every byte of the view is the byte a data read of start + i returns only while start + i stays
+                # in the region (the bank / buffer selection is per region): the view must end at the region's end
+                from .. import bvproof as _bp
+                endt = O(64, 'add', f['start'], f['len'])
+                lim = C(64, hi + 1)
+                envx = f['env'].copy()
+                for s_ in syms_of(endt):
+                    # lengths of the fixed-size buffers (MemoryAreas::with_rom_file / with_rom) are constants
+                    if s_[3] and s_[3][0] == 'len':
+                        fx = FIXED.get(bm.buffer_of(s_[3][1]))
+                        if fx and fx[0] == 'const':
+                            envx.assume_eq(s_, fx[1])
+                av_end = envx.av(endt)
+                if not (av_end.hi <= hi + 1 or _bp.equal_under(O(1, 'ule', endt, lim), C(1, 1), envx, 1) is True):
+                    okk = False
+                    why = ('the fetch view that starts in 0x%04x-0x%04x can extend past 0x%04x (length %s): bytes beyond the '
+                           'region come from the buffer\'s linear continuation, not from what the bus maps there'
+                           % (f['lo'], f['hi'], hi, fmt(f['len'])[:80]))
             if okk:
                 chk.ok('C10.5', key, sample={'region': name, 'cell': '%s[%s]' % (f['buffer'], fmt(f['offset']))})
             else:
